@@ -44,6 +44,8 @@ def run(ctx):
     from . import c07
     c07.r07_4(ctx, rep, roles, snd)
     ctx.report.rules[-1].id = "R01.4(R07.4)"
+    from .. import wrappers
+    wrappers.digest_wrapper(ctx, rep, roles, "C01", "R01.5")
 
 
 def r01_1(ctx, rep, roles, snd):
